@@ -3,16 +3,20 @@
 use crate::core::{RunCtx, harness_error};
 
 pub mod c05;
+pub mod c06;
+pub mod c11;
 pub mod c12;
 pub mod c13;
 pub mod c14;
 pub mod c20;
 
-pub const ALL: &[&str] = &["C05", "C12", "C13", "C14", "C20"];
+pub const ALL: &[&str] = &["C05", "C06", "C11", "C12", "C13", "C14", "C20"];
 
 pub fn run(id: &str, ctx: &RunCtx) -> i32 {
     match id {
         "C05" => c05::run(ctx),
+        "C06" => c06::run(ctx),
+        "C11" => c11::run(ctx),
         "C12" => c12::run(ctx),
         "C13" => c13::run(ctx),
         "C14" => c14::run(ctx),
@@ -38,6 +42,8 @@ pub fn replay(path: &str) -> i32 {
     let prop = v["property"].as_str().unwrap_or("");
     match prop {
         "C05" => c05::replay(&v),
+        "C06" => c06::replay(&v),
+        "C11" => c11::replay(&v),
         "C12" => c12::replay(&v),
         "C13" => c13::replay(&v),
         "C14" => c14::replay(&v),
@@ -58,4 +64,14 @@ pub fn replay_verdict(prop: &str, r: &crate::core::Report) -> i32 {
         println!("VIOLATION property={prop} replay=(replayed)");
         1
     }
+}
+
+/// RFC 1123 date of a unix time (used for Date / x-amz-date headers of V2 requests)
+pub fn c06_http_date(t: i64) -> String {
+    let days = t.div_euclid(86_400);
+    let rem = t.rem_euclid(86_400);
+    let (y, m, d) = c14::civil_from_days(days);
+    const WD: [&str; 7] = ["Thu", "Fri", "Sat", "Sun", "Mon", "Tue", "Wed"];
+    const MON: [&str; 12] = ["Jan", "Feb", "Mar", "Apr", "May", "Jun", "Jul", "Aug", "Sep", "Oct", "Nov", "Dec"];
+    format!("{}, {:02} {} {:04} {:02}:{:02}:{:02} GMT", WD[days.rem_euclid(7) as usize], d, MON[(m - 1) as usize], y, rem / 3600, (rem / 60) % 60, rem % 60)
 }
